@@ -157,7 +157,13 @@ class NetCDFWrite(IOWrite):
         # name that is tested is the name that is used
         base = base.replace(" ", "_")
 
-        if base in existing_names:
+        if base in existing_names and not g["dry_run"]:
+            # (In the dry run of append mode the constructs have been
+            # read from the dataset and their names are the names
+            # that the dataset uses: one netCDF variable or dimension
+            # may be come across more than once, through different
+            # constructs, and must be registered under its own name
+            # each time.)
             counter = g.setdefault("count_" + base, 1)
 
             ncvar = f"{base}_{counter}"
